@@ -6,6 +6,7 @@ from ..loader import norm, full, walk_local, walk_local_ordered, dump_name
 from .. import util as U
 from ..locks import lock_classes, lexical_locks, with_attrs, entry_locks
 from .c05 import roots_of
+from ..flow import enumerate_paths
 
 EXPLANATION = (
     'Lock identity is recovered from the source (threading.Condition(L) joins L\'s lock class, aliases propagate), '
@@ -457,6 +458,16 @@ def rule_ready(ctx):
         ctx.ob('C08.ready', f'{g.fq}:once', len(pops) == 1 and len(aw) == 1, 'one pop, one __awake__ per performed task', g.node, m)
 
 
+def _numeric_guard(f, call):
+    """the re-scheduling call sits under a test whose conjuncts include isinstance(delta, (int, float)) and not isinstance(delta, bool)"""
+    for p_ in U.parent_chain(call):
+        if isinstance(p_, ast.If) and any(call is y for x in p_.body for y in ast.walk(x)):
+            cj = {norm(c) for c in U.conjuncts(p_.test)}
+            if {'isinstance(delta, (int, float))', 'not isinstance(delta, bool)'} <= cj:
+                return True
+    return False
+
+
 def rule_resched(ctx):
     ctx.rule('C08.resched', 'a numeric return re-schedules relative to the scheduled time (AppClock: relative to the '
                             'physical present, documented drift)')
@@ -468,11 +479,12 @@ def rule_resched(ctx):
         ctx.ob('C08.resched', f'{f.fq}:source', len(rs) == 1 and 'PHYSICAL' not in r and 'QUEUE-ENTRY' in r,
                f're-scheduling roots {sorted(r)}', f.node, m)
         src = full(f.node)
-        ctx.ob('C08.resched', f'{f.fq}:numeric-delta', 'if isinstance(delta, (int, float)) and (not isinstance(delta, bool))' in src,
+        ctx.ob('C08.resched', f'{f.fq}:numeric-delta', _numeric_guard(f, rs[0]) if rs else False,
                'only int/float (not bool) deltas re-schedule', f.node, m)
     w = m.classes['Scheduler'].methods['_wakeup']
     src = full(w.node)
-    ctx.ob('C08.resched', f'{w.fq}:numeric-delta', 'if isinstance(delta, (int, float)) and (not isinstance(delta, bool)): self._sched_add(delta, item)' in src,
+    rs = [c for c in U.calls(w.node) if U.method_name(c) == '_sched_add']
+    ctx.ob('C08.resched', f'{w.fq}:numeric-delta', len(rs) == 1 and _numeric_guard(w, rs[0]) and norm(rs[0]) == 'self._sched_add(delta, item)',
            'AppClock re-schedules numeric deltas through its scheduler', w.node, m)
     a = m.classes['Scheduler'].methods['_sched_add']
     src = full(a.node)
@@ -480,7 +492,94 @@ def rule_resched(ctx):
            f'self.queue.add(from_time + {a.params[1]}, {a.params[2]})' in src, 'drifting scheduler: now + delta (documented)', a.node, m)
 
 
+INF_SRC = ("float('inf')", 'float("inf")', 'math.inf', 'bi.inf', 'inf')
+
+
+def _inf_test_subject(test, truth):
+    """names whose value is known to be non-infinite when `test` evaluates to `truth`"""
+    out = set()
+    parts = U.conjuncts(test) if truth else ([test] if not isinstance(test, ast.BoolOp) else
+                                             (test.values if isinstance(test.op, ast.Or) else []))
+    for c in parts:
+        neg = False
+        while isinstance(c, ast.UnaryOp) and isinstance(c.op, ast.Not):
+            c, neg = c.operand, not neg
+        cp = U.compare_parts(c)
+        if cp and norm(cp[2]) in INF_SRC and isinstance(cp[0], (ast.Name, ast.Attribute)):
+            if (cp[1] is ast.NotEq and truth != neg) or (cp[1] is ast.Eq and truth == neg):
+                out.add(norm(cp[0]))
+        if isinstance(c, ast.Call) and U.call_name(c) in ('math.isinf', 'isinf', 'bi.isinf') and c.args:
+            if truth == neg:
+                out.add(norm(c.args[0]))
+        if isinstance(c, ast.Call) and U.call_name(c) in ('math.isfinite', 'isfinite') and c.args:
+            if truth != neg:
+                out.add(norm(c.args[0]))
+    return out
+
+
+def rule_finite(ctx):
+    ctx.rule('C08.resched', 'no infinite time enters a clock queue: every site that queues a task (scheduling calls and the re-scheduling of a '
+                            'returned delta, rt and nrt) is reached only after the time, or the delta it is computed from, was tested against '
+                            'infinity on that path; an infinite deadline makes the clock thread call wait(inf) and die')
+    m = ctx.repo.module('sc3.base.clock')
+    helpers = {'_sched_add', '_sched_add_nrt'}
+    n = 0
+    for q, f in sorted(m.functions.items()):
+        last = q.split('.')[-1]
+        if last in helpers or last in ('rekey', '__init__') or q == 'ClockScheduler.add':    # helpers: their callers are the sites
+            continue
+        sites = []
+        for c in U.calls(f.node):
+            mn = U.method_name(c) or U.call_name(c)
+            if mn in helpers or (U.call_name(c) == 'ClockTask') or \
+                    (mn == 'add' and isinstance(c.func, ast.Attribute) and norm(c.func.value) in ('self.queue', 'self.scheduler', 'cls._task_queue', 'self._task_queue')):
+                sites.append(c)
+        if not sites:
+            continue
+        assigns = {}
+        for a in walk_local(f.node):
+            if isinstance(a, ast.Assign) and isinstance(a.targets[0], (ast.Name, ast.Attribute)):
+                assigns.setdefault(norm(a.targets[0]), []).append(a.value)
+            elif isinstance(a, ast.AugAssign):
+                assigns.setdefault(norm(a.target), []).append(a.value)
+
+        def roots(e, seen=None):
+            seen = seen if seen is not None else set()
+            out = set()
+            for x in ast.walk(e):
+                if isinstance(x, (ast.Name, ast.Attribute)):
+                    k = norm(x)
+                    out.add(k)
+                    if k in assigns and k not in seen:
+                        seen.add(k)
+                        for v in assigns[k]:
+                            out |= roots(v, seen)
+            return out
+        for c in sites:
+            n += 1
+            targ = c.args[0]
+            rs = roots(targ)
+            ok_all, reached = True, False
+            for ev, out in enumerate_paths(f.node, max_paths=4000):
+                idx = next((i for i, (k, node, x) in enumerate(ev) if k in ('stmt', 'return', 'test') and any(y is c for y in ast.walk(node))), None)
+                if idx is None:
+                    continue
+                reached = True
+                known = set()
+                for k, node, x in ev[:idx + 1]:
+                    if k == 'test':
+                        known |= _inf_test_subject(node, bool(x))
+                if not (known & rs):
+                    ok_all = False
+                    break
+            ctx.ob('C08.resched', f'{f.fq}:{norm(c.func)}({norm(targ)}):finite-time', reached and ok_all,
+                   f'{norm(c)[:80]} queues a time derived from {sorted(rs)[:6]} that no test on the path compares with infinity '
+                   f'(sched drops an infinite time; a returned float(\'inf\') must be dropped the same way)', c, m)
+    ctx.require(n >= 14, 'C08.resched', f'only {n} queueing sites found')
+
+
 def run(ctx):
+    rule_finite(ctx)
     rule_guard(ctx)
     rule_wait(ctx)
     rule_notify(ctx)
@@ -493,6 +592,15 @@ def run(ctx):
 
 
 MUTANTS = [
+    dict(rule='C08.resched', name='SystemClock re-schedules an infinite delta (fix reverted)', file='sc3/base/clock.py',
+         old="                        and not isinstance(delta, bool)\\\n                        and delta != float('inf'):  # As sched.\n                            time = sched_time + delta",
+         new="                        and not isinstance(delta, bool):\n                            time = sched_time + delta"),
+    dict(rule='C08.resched', name='AppClock re-schedules an infinite delta (fix reverted)', file='sc3/base/clock.py',
+         old="            if isinstance(delta, (int, float)) and not isinstance(delta, bool)\\\n            and delta != float('inf'):  # As sched.\n                self._sched_add(delta, item)",
+         new="            if isinstance(delta, (int, float)) and not isinstance(delta, bool):\n                self._sched_add(delta, item)"),
+    dict(rule='C08.resched', name='sched_abs does not drop an infinite time', file='sc3/base/clock.py',
+         old="        item._clock = cls\n        if time == float('inf'):\n            return\n        if cls.mode == _libsc3.main.NRT_MODE:\n            ClockTask(time, cls, item, _libsc3.main._clock_scheduler)",
+         new="        item._clock = cls\n        if cls.mode == _libsc3.main.NRT_MODE:\n            ClockTask(time, cls, item, _libsc3.main._clock_scheduler)"),
     dict(rule='C08.guard', name='main lock replaced by a no-op context in one mode', file='sc3/base/main.py',
          old="        cls._clock_scheduler = clk.ClockScheduler()", new="        cls._clock_scheduler = clk.ClockScheduler()\n        cls._main_lock = contextlib.nullcontext()"),
     dict(rule='C08.guard', name='sched reads the base time before taking the lock (seed C08-c)', file='sc3/base/clock.py',
@@ -535,8 +643,8 @@ MUTANTS = [
     dict(rule='C08.stop', name='join while holding the lock', file='sc3/base/clock.py',
          old="            self._run_sched = False\n            self._sched_cond.notify_all()\n        self._thread.join()", new="            self._run_sched = False\n            self._sched_cond.notify_all()\n            self._thread.join()"),
     dict(rule='C08.resched', name='bool deltas re-schedule', file='sc3/base/clock.py',
-         old="            if isinstance(delta, (int, float)) and not isinstance(delta, bool):\n                self._sched_add(delta, item)",
-         new="            if isinstance(delta, (int, float)):\n                self._sched_add(delta, item)"),
+         old="            if isinstance(delta, (int, float)) and not isinstance(delta, bool)\\\n            and delta != float('inf'):  # As sched.\n                self._sched_add(delta, item)",
+         new="            if isinstance(delta, (int, float))\\\n            and delta != float('inf'):  # As sched.\n                self._sched_add(delta, item)"),
     dict(rule='C08.ready', name='TempoClock sleeps beats as seconds', file='sc3/base/clock.py',
          old="                    sched_secs = self.beats2secs(qpeek[0])\n", new="                    sched_secs = qpeek[0]\n"),
     dict(rule='C08.ready', name='SystemClock performs tasks scheduled after now', file='sc3/base/clock.py',
@@ -547,6 +655,9 @@ REPAIRS = []
 
 # behaviour-preserving (for C08) edits that must stay silent
 EQUIV = [
+    dict(name='returned infinity filtered on the computed time inside the branch', file='sc3/base/clock.py',
+         old="                        and not isinstance(delta, bool)\\\n                        and delta != float('inf'):  # As sched.\n                            time = sched_time + delta\n                            cls._sched_add(time, task)",
+         new="                        and not isinstance(delta, bool):\n                            time = sched_time + delta\n                            if not math.isinf(time):\n                                cls._sched_add(time, task)"),
     dict(name='NRT-only queue method with the name of an RT helper is called without a lock', file='sc3/base/clock.py',
          old="            _libsc3.main._clock_scheduler.clear(self)\n            return\n",
          new="            _libsc3.main._clock_scheduler.clear(self)\n            _libsc3.main._clock_scheduler.clear(self)\n            return\n"),
